@@ -87,6 +87,7 @@ def handle : Handler := fun op inp impl => do
     let implPanic := (jopt impl "panic").isSome
     let holds := if implPanic then [("C09.loop_total", false), ("C06.loop_total", false)] else
       RV.Oracle.ClosedLoop.stateOracles post fwd del ++ RV.Oracle.ClosedLoop.stepOracles pre lab post fwd
+    let tags := (if RV.Oracle.ClosedLoop.gSupersedeRace post then ["guard:supersedeRace"] else []) ++ tags
     let tags := (if fwd then "scope:fwd" else if del then "scope:del" else "scope:any") :: (if del then [if RV.Oracle.ClosedLoop.delInv post then "delInv:holds" else "delInv:fails"] else []) ++ (if RV.Oracle.ClosedLoop.fwdInv post then "fwdInv:holds" else "fwdInv:fails") :: tags
     match labelOf lab with
     | none => return { model := .null, holds := holds, tags := "uncompared" :: tags }
